@@ -147,9 +147,10 @@ func corrTail(r *hx.Rng, n int, id *int) {
 // the call the reader has nothing left.  WriteString: the bytes of the string (+ 00), or nothing and the error.
 func searchTail(r *hx.Rng, n int) int {
 	evals := 0
-	// Exp-Golomb codes of any length: a code of q zeros, a one and q bits is 2q+1 bits long whatever its value, so the marker
-	// byte behind the codes is read back and no error is set; a code with q <= 57 has the value of the standard
-	// (2^q - 1 + suffix); longer ones exceed what the reader promises to represent and are judged for position only
+	// Exp-Golomb codes of any length: a code of q zeros, a one and q bits is 2q+1 bits long whatever its value, so when the
+	// reader reports no error the marker byte behind the codes is read back; a code with q <= 57 must be read without error
+	// and has the value of the standard (2^q - 1 + suffix); longer ones exceed what the reader promises to represent and
+	// are judged for the position only (an error instead would be fine)
 	for i := 0; i < n/4+16; i++ {
 		evals++
 		lc := genLongCodes(r)
@@ -170,8 +171,10 @@ func searchTail(r *hx.Rng, n int) int {
 				got = uint64(rd.ReadExpGolomb())
 			}
 			if rd.AccError() != nil {
-				fail("bits.EBSPReader.ReadExpGolomb", "long-code-error", witness, fmt.Sprintf("code %d is complete, yet the error %v was set", k, rd.AccError()))
-				bad = true
+				if z <= 57 { // a code the writer produces (values up to 2^57 - 2 have up to 56 zeros; 57 is read exactly too)
+					fail("bits.EBSPReader.ReadExpGolomb", "long-code-error", witness, fmt.Sprintf("code %d is complete, yet the error %v was set", k, rd.AccError()))
+				}
+				bad = true // refusing a longer code with an error is no failure; succeeding at the wrong position is
 				break
 			}
 			if z <= 57 {
